@@ -29,7 +29,7 @@ MANIFEST = dict(
          "and keeps it unaliased (the O(n+k) clause), a shared list is copied exactly once and is unaliased afterwards, drop_lhs makes "
          "the operator's argument unique. The machine is tied to /repo on every run by comparing its heap with the implementation's "
          "real Rc graph (addresses, strong counts) after every statement of generated histories; the O(n+k) clause is measured "
-         "directly with a counting global allocator on 16 workloads at 6 size points, unaliased and once-aliased.",
+         "directly with a counting global allocator on 42 workloads (incl. nested pop/remove/consume and op-assign with a shared right operand) at 6 size points, unaliased and once-aliased.",
     note="The unaliased/copy-once/drop_lhs theorems are proved for the FLAT fragment only (list of scalars, paths of depth <= 1); nested "
          "rows, dicts, struct fields and pop/remove/builtins at depth are covered by the graph comparison and the allocation "
          "measurement, not by theorems (notes/C02.md). Trusted: Coq kernel; hand-written machine; extraction + OCaml runner; Rust "
@@ -230,6 +230,27 @@ WORKLOADS = [
     ("vector index-assign", "vector", lambda n: [f"x := vector({lit_list(n)})"], lambda n, k: f"for (i <- 0 til {k}) (x[i % {n}] = i)"),
     ("vector index +=", "vector", lambda n: [f"x := vector({lit_list(n)})"], lambda n, k: f"for (i <- 0 til {k}) (x[i % {n}] += 1)"),
     ("bytes index-assign", "bytes", lambda n: [f"x := bytes({lit_list(n)})"], lambda n, k: f"for (i <- 0 til {k}) (x[i % {n}] = i % 200)"),
+    # nested consuming builtins: modify_existing_index must hand try_pop/try_remove the row itself, not a second holder of it
+    ("nested row pop", "list", lambda n: [f"x := [{lit_list(n)}, {lit_list(n)} ++ []]"], lambda n, k: f"for (i <- 0 til {k}) (x[i % 2] append= i; pop x[i % 2])"),
+    ("nested row remove-at-end", "list", lambda n: [f"x := [{lit_list(n)}, {lit_list(n)} ++ []]"], lambda n, k: f"for (i <- 0 til {k}) (x[i % 2] append= i; remove x[i % 2][-1])"),
+    ("nested row consume", "list", lambda n: [f"x := [{lit_list(n)}, {lit_list(n)} ++ []]"], lambda n, k: f"for (i <- 0 til {k}) (x[i % 2][i % {n}] = i; consume x[i % 2][i % {n}])"),
+    ("two-level row pop", "list", lambda n: [f"x := [[{lit_list(n)}, {lit_list(n)} ++ []], [[0]]]"], lambda n, k: f"for (i <- 0 til {k}) (x[0][i % 2] append= i; pop x[0][i % 2])"),
+    ("two-level row remove-at-end", "list", lambda n: [f"x := [[{lit_list(n)}, {lit_list(n)} ++ []], [[0]]]"], lambda n, k: f"for (i <- 0 til {k}) (x[0][i % 2] append= i; remove x[0][i % 2][-1])"),
+    ("dict bucket pop", "dict", lambda n: [f"x := {{0: {lit_list(n)}, 1: {lit_list(n)} ++ []}}"], lambda n, k: f"for (i <- 0 til {k}) (x[i % 2] append= i; pop x[i % 2])"),
+    ("dict bucket remove-at-end", "dict", lambda n: [f"x := {{\"a\": {lit_list(n)}}}"], lambda n, k: f"for (i <- 0 til {k}) (x[\"a\"] append= i; remove x[\"a\"][-1])"),
+    ("struct field pop", "P", lambda n: ["struct P (pa, pb)", f"x := P({lit_list(n)}, 0)"], lambda n, k: f"for (i <- 0 til {k}) (x[pa] append= i; pop x[pa])"),
+    ("list-of-struct field pop", "list", lambda n: ["struct P (pa, pb)", f"x := [P({lit_list(n)}, 0), P({lit_list(n)} ++ [], 1)]"], lambda n, k: f"for (i <- 0 til {k}) (x[i % 2][pa] append= i; pop x[i % 2][pa])"),
+    # op-assign whose right operand has a second holder (a variable, an element of another collection): the unaliased LEFT operand
+    # must still be extended in place
+    ("++= variable", "list", lambda n: [f"x := {lit_list(n)}", "extra := [1, 2] ++ []"], lambda n, k: f"for (i <- 0 til {k}) (x ++= extra)"),
+    ("++= element of another list", "list", lambda n: [f"x := {lit_list(n)}", "rows := [[1, 2], [3] ++ []]"], lambda n, k: f"for (i <- 0 til {k}) (x ++= rows[i % 2])"),
+    ("nested row ++= variable", "list", lambda n: [f"x := [{lit_list(n)}, {lit_list(n)} ++ []]", "extra := [1, 2] ++ []"], lambda n, k: f"for (i <- 0 til {k}) (x[i % 2] ++= extra)"),
+    ("dict bucket ++= variable", "dict", lambda n: [f"x := {{\"a\": {lit_list(n)}}}", "extra := [1, 2] ++ []"], lambda n, k: f"for (i <- 0 til {k}) (x[\"a\"] ++= extra)"),
+    ("struct field ++= variable", "P", lambda n: ["struct P (pa, pb)", f"x := P({lit_list(n)}, 0)", "extra := [1, 2] ++ []"], lambda n, k: f"for (i <- 0 til {k}) (x[pa] ++= extra)"),
+    ("append= variable", "list", lambda n: [f"x := {lit_list(n)}", "extra := [1, 2] ++ []"], lambda n, k: f"for (i <- 0 til {k}) (x append= extra)"),
+    ("dict ||= variable", "dict", lambda n: [f"x := {{}}", f"for (i <- 0 til {n}) (x[i] = i)", "other := {-1: 0, -2: 0}"], lambda n, k: f"for (i <- 0 til {k}) (x ||= other)"),
+    ("dict |.= variable", "dict", lambda n: [f"x := {{}}", f"for (i <- 0 til {n}) (x[i] = i)", "kk := \"key\""], lambda n, k: f"for (i <- 0 til {k}) (x |.= kk)"),
+    ("dict |..= variable", "dict", lambda n: [f"x := {{}}", f"for (i <- 0 til {n}) (x[i] = i)", "pr := [1, [2, 3]] ++ []"], lambda n, k: f"for (i <- 0 til {k}) (x |..= pr)"),
     ("string index-assign", "str", lambda n: [f"x := \"a\" $* {n}"], lambda n, k: f"for (i <- 0 til {k}) (x[i % {n}] = \"b\")"),
 ]
 
